@@ -553,3 +553,286 @@ theorem slice_exact (a b c : Bytes) : slice (a ++ b ++ c) a.length b.length = b 
   rw [List.append_assoc, List.drop_left, List.take_left]
 
 end OV.C20
+
+namespace OV.C20
+
+theorem image_cons_eq (pre b : Bytes) (bs : List Bytes) :
+    pre ++ image pre.length (b :: bs) =
+      (pre ++ zeros (newOffset pre.length b.length - pre.length) ++ b) ++
+        image (pre ++ zeros (newOffset pre.length b.length - pre.length) ++ b).length bs := by
+  have hge := newOffset_ge pre.length b.length
+  have hl : (pre ++ zeros (newOffset pre.length b.length - pre.length) ++ b).length
+      = newOffset pre.length b.length + b.length := by
+    simp only [List.length_append, zeros, List.length_replicate]; omega
+  rw [hl]
+  simp only [image, List.append_assoc]
+
+/-- Reading back what the write loop wrote: for every prefix already in the file, every list of tensors (any sizes,
+zero included) and every index, the recorded `(offset, length)` selects exactly that tensor's bytes. -/
+theorem image_readback_aux (bs : List Bytes) : ∀ (pre : Bytes) (i : Nat), i < bs.length →
+    ∃ e, (layout pre.length (bs.map List.length))[i]? = some e ∧ e.2 = (bs[i]?.getD []).length ∧
+      slice (pre ++ image pre.length bs) e.1 e.2 = bs[i]?.getD [] := by
+  induction bs with
+  | nil => intro pre i h; simp at h
+  | cons b bs ih =>
+    intro pre i h
+    have hge := newOffset_ge pre.length b.length
+    cases i with
+    | zero =>
+      refine ⟨(newOffset pre.length b.length, b.length), by simp [layout], by simp, ?_⟩
+      simp only [List.getElem?_cons_zero, Option.getD_some]
+      rw [image_cons_eq]
+      have hl : (pre ++ zeros (newOffset pre.length b.length - pre.length)).length = newOffset pre.length b.length := by
+        simp only [List.length_append, zeros, List.length_replicate]; omega
+      have := slice_exact (pre ++ zeros (newOffset pre.length b.length - pre.length)) b
+        (image (pre ++ zeros (newOffset pre.length b.length - pre.length) ++ b).length bs)
+      rw [hl] at this
+      exact this
+    | succ j =>
+      have hj : j < bs.length := by simpa using h
+      obtain ⟨e, he1, he2, he3⟩ := ih (pre ++ zeros (newOffset pre.length b.length - pre.length) ++ b) j hj
+      have hl : (pre ++ zeros (newOffset pre.length b.length - pre.length) ++ b).length
+          = newOffset pre.length b.length + b.length := by
+        simp only [List.length_append, zeros, List.length_replicate]; omega
+      refine ⟨e, ?_, ?_, ?_⟩
+      · simp only [List.map_cons, layout, List.getElem?_cons_succ]
+        rw [hl] at he1; exact he1
+      · simpa using he2
+      · rw [image_cons_eq]
+        simpa using he3
+
+end OV.C20
+
+namespace OV.C20
+
+/-! ### the fault-free write loop on in-memory tensors -/
+
+theorem tick_ok (op : Op) (s : St) (hk : s.k = none) :
+    tick op s = (.ok (), { s with calls := s.calls + 1, trace := s.trace ++ [op] }) := by
+  unfold tick
+  simp [hk]
+
+theorem get?_set_eq (fs : FS) (f : String) (c : Content) : FS.get? (FS.set fs f c) f = some c := by
+  induction fs with
+  | nil => simp [FS.set, FS.get?, List.lookup]
+  | cons x rest ih =>
+    obtain ⟨g, d⟩ := x
+    simp only [FS.set]
+    by_cases hg : g = f
+    · subst hg; simp [FS.get?, List.lookup]
+    · simp only [hg, if_false, FS.get?, List.lookup]
+      have : (f == g) = false := by simpa using (fun h => hg h.symm)
+      simp only [this]
+      exact ih
+
+theorem set_set (fs : FS) (f : String) (c d : Content) : FS.set (FS.set fs f c) f d = FS.set fs f d := by
+  induction fs with
+  | nil => simp [FS.set]
+  | cons x rest ih =>
+    obtain ⟨g, e⟩ := x
+    simp only [FS.set]
+    by_cases hg : g = f
+    · subst hg; simp [FS.set]
+    · simp only [hg, if_false, FS.set, ih]
+
+theorem set_same (fs : FS) (f : String) (c : Content) (h : FS.get? fs f = some c) : FS.set fs f c = fs := by
+  induction fs with
+  | nil => simp [FS.get?] at h
+  | cons x rest ih =>
+    obtain ⟨g, d⟩ := x
+    simp only [FS.get?, List.lookup] at h
+    simp only [FS.set]
+    by_cases hg : g = f
+    · subst hg
+      simp only [BEq.rfl, Option.some.injEq] at h
+      subst h; simp
+    · have : (f == g) = false := by simpa using (fun h => hg h.symm)
+      simp only [this] at h
+      simp only [hg, if_false, List.cons.injEq, true_and]
+      exact ih h
+
+theorem append_data (fs : FS) (f : String) (c b : Bytes) (h : FS.get? fs f = some (.data c)) :
+    FS.append fs f b = FS.set fs f (.data (c ++ b)) := by
+  unfold FS.append
+  rw [h]
+
+/-- Items handed to the write loop for tensors `(name, id, bytes)` laid out from `cur`. -/
+def mkItems (cur : Nat) : List (String × Nat × Bytes) → List (String × Nat × Nat)
+  | [] => []
+  | (n, id, b) :: r => (n, id, newOffset cur b.length) :: mkItems (newOffset cur b.length + b.length) r
+
+/-- What matters of a state for the fault-free lemmas (everything but the call counter, trace and callback log). -/
+structure Core (s s' : St) (fs' : FS) : Prop where
+  k : s'.k = s.k
+  heap : s'.heap = s.heap
+  cv : s'.cv = s.cv
+  fs : s'.fs = fs'
+
+theorem bind_apply (f : M α) (g : α → M β) (s : St) :
+    (f >>= g) s = match f s with
+      | (.ok a, s') => g a s'
+      | (.error e, s') => (.error e, s') := rfl
+theorem pure_apply (a : α) (s : St) : (pure a : M α) s = (.ok a, s) := rfl
+theorem get_apply (s : St) : get s = (.ok s, s) := rfl
+theorem modify_apply (g : St → St) (s : St) : modify g s = (.ok (), g s) := rfl
+
+theorem fileLen_data (f : String) (c : Bytes) (s : St) (h : FS.get? s.fs f = some (.data c)) :
+    fileLen f s = (.ok c.length, s) := by
+  unfold fileLen
+  simp only [bind_apply, get_apply, h, pure_apply]
+
+theorem getObj_ok (id : Nat) (t : TRef) (s : St) (h : s.heap[id]? = some t) : getObj id s = (.ok t, s) := by
+  rcases getObj_spec id s with ⟨t', ht, hg⟩ | ⟨hn, _⟩
+  · rw [h] at ht; cases ht; exact hg
+  · rw [h] at hn; cases hn
+
+/-- `tensor.tofile(file)` for an in-memory tensor, no fault: the bytes are appended, nothing else changes. -/
+theorem tofile_mem_ok (dest : String) (id : Nat) (b c : Bytes) (np : Bool) (s : St)
+    (hk : s.k = none) (hobj : s.heap[id]? = some (.mem b np)) (hfile : FS.get? s.fs dest = some (.data c)) :
+    ∃ s', tofile dest id s = (.ok (), s') ∧ Core s s' (FS.set s.fs dest (.data (c ++ b))) := by
+  unfold tofile
+  simp only [bind_apply, getObj_ok id _ s hobj]
+  cases np with
+  | true =>
+    simp only [bind_apply, tick_ok _ s hk, fsCWrite, modify_apply, append_data _ _ _ _ hfile]
+    rw [fileLen_data dest (c ++ b) _ (by simp only [get?_set_eq])]
+    simp only []
+    rw [tick_ok _ _ (by exact hk)]
+    exact ⟨_, rfl, ⟨rfl, rfl, rfl, rfl⟩⟩
+  | false =>
+    simp only [fsWrite, bind_apply, tick_ok _ s hk, modify_apply, append_data _ _ _ _ hfile]
+    exact ⟨_, rfl, ⟨rfl, rfl, rfl, rfl⟩⟩
+
+theorem Core.trans {s s1 s2 : St} {fs1 fs2 : FS} (h1 : Core s s1 fs1) (h2 : Core s1 s2 fs2) : Core s s2 fs2 :=
+  ⟨h2.k.trans h1.k, h2.heap.trans h1.heap, h2.cv.trans h1.cv, h2.fs⟩
+
+/-- The part of `writeOne` after the callback: padding up to the offset, then `tofile`. -/
+theorem writeRest_ok (dest : String) (id : Nat) (b c : Bytes) (np : Bool) (s : St)
+    (hk : s.k = none) (hobj : s.heap[id]? = some (.mem b np)) (hfile : FS.get? s.fs dest = some (.data c)) :
+    ∃ s', (do
+        let size ← fileLen dest
+        if newOffset c.length b.length > size then do
+            fsWrite dest (zeros (newOffset c.length b.length - size))
+            tofile dest id
+          else tofile dest id) s = (.ok (), s') ∧
+      Core s s' (FS.set s.fs dest (.data (c ++ zeros (newOffset c.length b.length - c.length) ++ b))) := by
+  have hge := newOffset_ge c.length b.length
+  simp only [bind_apply, fileLen_data dest c s hfile]
+  by_cases hpad : newOffset c.length b.length > c.length
+  · simp only [hpad, if_true, fsWrite, bind_apply, tick_ok _ s hk, modify_apply, append_data _ _ _ _ hfile]
+    obtain ⟨s', h1, h2⟩ := tofile_mem_ok dest id b (c ++ zeros (newOffset c.length b.length - c.length)) np
+      { s with calls := s.calls + 1, trace := s.trace ++ [Op.write dest (zeros (newOffset c.length b.length - c.length)).length],
+               fs := FS.set s.fs dest (.data (c ++ zeros (newOffset c.length b.length - c.length))) }
+      hk hobj (by simp only [get?_set_eq])
+    refine ⟨s', h1, ?_⟩
+    have h3 := h2.fs
+    simp only [set_set] at h3
+    exact ⟨h2.k, h2.heap, h2.cv, h3⟩
+  · simp only [hpad, if_false]
+    obtain ⟨s', h1, h2⟩ := tofile_mem_ok dest id b c np s hk hobj hfile
+    refine ⟨s', h1, ?_⟩
+    have : newOffset c.length b.length - c.length = 0 := by omega
+    rw [this]
+    simpa [zeros] using h2
+
+theorem writeOne_ok (dest : String) (verbose : Bool) (name : String) (id : Nat) (b c : Bytes) (np : Bool) (s : St)
+    (hk : s.k = none) (hobj : s.heap[id]? = some (.mem b np)) (hfile : FS.get? s.fs dest = some (.data c)) :
+    ∃ s', writeOne dest verbose (name, id, newOffset c.length b.length) s = (.ok (), s') ∧
+      Core s s' (FS.set s.fs dest (.data (c ++ zeros (newOffset c.length b.length - c.length) ++ b))) := by
+  unfold writeOne
+  simp only []
+  cases verbose with
+  | false =>
+    simp only [Bool.false_eq_true, if_false]
+    exact writeRest_ok dest id b c np s hk hobj hfile
+  | true =>
+    simp only [if_true, bind_apply, modify_apply]
+    obtain ⟨s', h1, h2⟩ := writeRest_ok dest id b c np
+      { s with cb := s.cb ++ [(name, newOffset c.length b.length)] } hk hobj hfile
+    exact ⟨s', h1, ⟨h2.k, h2.heap, h2.cv, h2.fs⟩⟩
+
+/-- The whole loop, no fault, in-memory tensors: the file grows by exactly `image`. -/
+theorem writeLoop_ok (dest : String) (verbose : Bool) :
+    ∀ (ts : List (String × Nat × Bytes)) (c : Bytes) (s : St), s.k = none →
+      (∀ x ∈ ts, ∃ np, s.heap[x.2.1]? = some (.mem x.2.2 np)) →
+      FS.get? s.fs dest = some (.data c) →
+      ∃ s', forM' (writeOne dest verbose) (mkItems c.length ts) s = (.ok (), s') ∧
+        Core s s' (FS.set s.fs dest (.data (c ++ image c.length (ts.map (·.2.2))))) := by
+  intro ts
+  induction ts with
+  | nil =>
+    intro c s hk _ hf
+    refine ⟨s, rfl, ⟨rfl, rfl, rfl, ?_⟩⟩
+    simp only [List.map_nil, image, List.append_nil]
+    exact (set_same _ _ _ hf).symm
+  | cons t ts ih =>
+    intro c s hk hobjs hf
+    obtain ⟨n, id, b⟩ := t
+    obtain ⟨np, hnp⟩ := hobjs (n, id, b) (List.mem_cons_self)
+    obtain ⟨s1, h1, c1⟩ := writeOne_ok dest verbose n id b c np s hk hnp hf
+    have hk1 : s1.k = none := by rw [c1.k]; exact hk
+    have hlen : (c ++ zeros (newOffset c.length b.length - c.length) ++ b).length = newOffset c.length b.length + b.length := by
+      have := newOffset_ge c.length b.length
+      simp only [List.length_append, zeros, List.length_replicate]; omega
+    obtain ⟨s2, h2, c2⟩ := ih (c ++ zeros (newOffset c.length b.length - c.length) ++ b) s1 hk1
+      (by
+        intro x hx
+        obtain ⟨np', h'⟩ := hobjs x (List.mem_cons_of_mem _ hx)
+        exact ⟨np', by rw [c1.heap]; exact h'⟩)
+      (by rw [c1.fs]; exact get?_set_eq _ _ _)
+    refine ⟨s2, ?_, ?_⟩
+    · simp only [mkItems, forM', bind_apply, h1]
+      rw [hlen] at h2
+      exact h2
+    · have := Core.trans c1 c2
+      refine ⟨this.k, this.heap, this.cv, ?_⟩
+      have hfs := this.fs
+      rw [c1.fs, set_set, hlen] at hfs
+      rw [hfs]
+      simp only [List.map_cons, image, List.append_assoc]
+
+/-- `_write_external_data`, no fault, in-memory tensors: afterwards the data file is exactly `image 0 …`. -/
+theorem writeExternalData_ok (dest : String) (verbose : Bool) (ts : List (String × Nat × Bytes)) (s : St)
+    (hk : s.k = none) (hobjs : ∀ x ∈ ts, ∃ np, s.heap[x.2.1]? = some (.mem x.2.2 np)) :
+    ∃ s', writeExternalData dest verbose (mkItems 0 ts) s = (.ok (), s') ∧
+      Core s s' (FS.set s.fs dest (.data (image 0 (ts.map (·.2.2))))) := by
+  unfold writeExternalData fsOpenW
+  simp only [bind_apply, tick_ok _ s hk, modify_apply]
+  -- the state inside the `with` block
+  generalize hs0 : ({ s with calls := s.calls + 1, trace := s.trace ++ [Op.openW dest],
+                             fs := FS.set s.fs dest (.data []) } : St) = s0
+  have hk0 : s0.k = none := by rw [← hs0]; exact hk
+  have hh0 : s0.heap = s.heap := by rw [← hs0]
+  have hc0 : s0.cv = s.cv := by rw [← hs0]
+  have hf0 : s0.fs = FS.set s.fs dest (.data []) := by rw [← hs0]
+  have hbody : ∀ (st : St), st.k = none → st.heap = s.heap → st.cv = s.cv → st.fs = FS.set s.fs dest (.data []) →
+      ∃ st', forM' (writeOne dest verbose) (mkItems 0 ts) st = (.ok (), st') ∧
+        Core st st' (FS.set s.fs dest (.data (image 0 (ts.map (·.2.2))))) := by
+    intro st hkst hhst _ hfst
+    obtain ⟨st', h1, h2⟩ := writeLoop_ok dest verbose ts [] st hkst
+      (by intro x hx; obtain ⟨np, h⟩ := hobjs x hx; exact ⟨np, by rw [hhst]; exact h⟩)
+      (by rw [hfst]; exact get?_set_eq _ _ _)
+    refine ⟨st', h1, ⟨h2.k, h2.heap, h2.cv, ?_⟩⟩
+    rw [h2.fs, hfst, set_set]
+    simp
+  unfold withClose
+  by_cases hcb : (verbose && !(mkItems 0 ts).isEmpty) = true
+  · simp only [hcb, if_true, bind_apply, modify_apply]
+    obtain ⟨st', h1, h2⟩ := hbody { s0 with cbTotal := some (mkItems 0 ts).length } hk0 hh0 hc0 hf0
+    rw [h1]
+    simp only []
+    rw [tick_ok _ st' (by rw [h2.k]; exact hk0)]
+    exact ⟨_, rfl, ⟨by show st'.k = s.k; rw [h2.k]; show s0.k = s.k; rw [← hs0],
+      by show st'.heap = s.heap; rw [h2.heap]; exact hh0,
+      by show st'.cv = s.cv; rw [h2.cv]; exact hc0, h2.fs⟩⟩
+  · simp only [hcb]
+    obtain ⟨st', h1, h2⟩ := hbody s0 hk0 hh0 hc0 hf0
+    simp only [Bool.false_eq_true, if_false]
+    rw [h1]
+    simp only []
+    rw [tick_ok _ st' (by rw [h2.k]; exact hk0)]
+    exact ⟨_, rfl, ⟨by show st'.k = s.k; rw [h2.k]; rw [← hs0],
+      by show st'.heap = s.heap; rw [h2.heap]; exact hh0,
+      by show st'.cv = s.cv; rw [h2.cv]; exact hc0, h2.fs⟩⟩
+
+end OV.C20
